@@ -11,24 +11,23 @@ namespace TddaVerif.Props.C15
 open TddaVerif.Py TddaVerif.CheckStrings TddaVerif.Props.C04
 
 /-- a passing comparison plans no file at all -/
-theorem pass_writes_nothing (o : Opts) (pat : PatFn) (a e : List Line) (gnl : Bool)
+theorem pass_writes_nothing (o : Opts) (pat : PatFn) (a e : List Line) (gnl : Bool) (raw : Line)
     (h : (checkStrings o pat a e).failures = 0) :
-    plan o (checkStrings o pat a e) gnl = { rawActual := none, diffActual := none, diffExpected := none } :=
-  Lemmas.pass_writes_nothing o pat a e gnl h
+    plan o (checkStrings o pat a e) gnl raw = { rawActual := none, diffActual := none, diffExpected := none } :=
+  Lemmas.pass_writes_nothing o pat a e gnl raw h
 
-/-- what the file written as the raw actual holds when a string comparison fails:
-    the compared lines (after the trailing-empty drop and line removal) joined by
-    newlines — this is the content the two recorded C15 findings are about -/
-theorem raw_actual_content (o : Opts) (pat : PatFn) (a e : List Line) (gnl : Bool)
+/-- the file written as the raw actual when a string comparison fails holds the actual content exactly as it was
+    given (`raw`), whatever was stripped, removed, ignored or preprocessed for the comparison -/
+theorem raw_actual_content (o : Opts) (pat : PatFn) (a e : List Line) (gnl : Bool) (raw : Line)
     (hf : (checkStrings o pat a e).failures = 1) (hc : o.createTemporaries = true)
     (hs : o.actualPath = false) :
-    (plan o (checkStrings o pat a e) gnl).rawActual = some (joinNl (kept o a)) :=
-  Lemmas.raw_actual_content o pat a e gnl hf hc hs
+    (plan o (checkStrings o pat a e) gnl raw).rawActual = some raw :=
+  Lemmas.raw_actual_content o pat a e gnl raw hf hc hs
 
 /-- a file comparison never writes a raw actual (the actual file itself is named) -/
-theorem file_actual_not_rewritten (o : Opts) (pat : PatFn) (a e : List Line) (gnl : Bool)
-    (hs : o.actualPath = true) : (plan o (checkStrings o pat a e) gnl).rawActual = none :=
-  Lemmas.file_actual_not_rewritten o pat a e gnl hs
+theorem file_actual_not_rewritten (o : Opts) (pat : PatFn) (a e : List Line) (gnl : Bool) (raw : Line)
+    (hs : o.actualPath = true) : (plan o (checkStrings o pat a e) gnl raw).rawActual = none :=
+  Lemmas.file_actual_not_rewritten o pat a e gnl raw hs
 
 /-- the reported first differing byte offset is exact: everything before it agrees, and it is
     either the end of the shorter input or a position where the bytes differ -/
